@@ -33,6 +33,13 @@ def skeleton(tier):
                 for op in (G.ALU if full else ["ADD", "CMP"]):
                     for v in [127, 128, -128, -129]:
                         out.append((("mn", op, [m, G.imm(v)]), {"form": "alu mem32,imm", "w": w, "imm": v, "asize": 32, "mem": G.mem_desc(b, i, s, d, G.DT[w])}))
+    # byte-sized memory destinations: no operand-size prefix whatever the immediate looks like
+    for (b, i, sc, asz) in [("BX", None, None, 16), ("BP", "SI", None, 16), (None, None, None, 0), ("EBX", None, None, 32), ("EAX", "ECX", 4, 32)]:
+        for d in ([None, 4, 0x1234] if (b or i) else [0x1234]):
+            m = G.sized(G.mem_exp(b, i, sc, d), 8)
+            for op in (G.ALU if full else ["ADD", "CMP", "AND"]) + ["MOV"]:
+                for v in [1, 127, 128, 200, 255, -1, -128]:
+                    out.append((("mn", op, [m, G.imm(v)]), {"form": ("alu" if op != "MOV" else "mov") + " mem8,imm", "w": 8, "imm": v, "asize": asz, "mem": G.mem_desc(b, i, sc, d, "BYTE")}))
     for acc, w in (("AL", 8), ("AX", 16), ("EAX", 32)):
         for addr in (0, 0x12, 0x0ff0, 0x7fff, 0x8000, 0xffff):
             m = G.mem_exp(None, None, None, addr)
